@@ -17,6 +17,8 @@ FAMILIES = ["same-seqnum-top", "newest-unrecoverable", "healthy", "newest-plus-s
             "same-seqnum-lower", "same-seqnum-top", "newest-unrecoverable", "newest-plus-stale-extras", "old-and-new",
             "corrupt-deep", "newest-plus-recoverable-extras", "random", "unreachable", "corrupt-duplicate",
             "corrupt-newest-complete-older"]
+MAX_STEPS = 3000      # scheduler steps per operation (a check/repair here needs a few hundred): a client that loops
+#                       forever (see C10 read-never-completes) must not stall the run
 INVALID_KINDS = ["hdr"]                       # signed fields edited: every survey drops the share
 DEEP_KINDS = ["block", "salt", "bht", "chain"]  # found by verification only
 OPEN_KINDS = ["sig"]   # signature bytes are consulted only for the first share of a version a survey processes:
@@ -27,6 +29,8 @@ def run(ck):
     import allmydata.mutable.publish as publish_mod
     default_seg = publish_mod.DEFAULT_MUTABLE_MAX_SEGMENT_SIZE
     real_os = publish_mod.os
+    from vf.checks._mut import virtual_time_on
+    undo_time = virtual_time_on()
     ck.rule = ("history = (format, k<=N<=10, 3..10 servers, 1..5 versions, 0..2 competing same-seqnum versions); "
                "composition = per-server (version | empty | unreachable) + per-share corruption kind, from directed and "
                "random families; operations = check(verify), repair(force), check_and_repair(verify) by fresh clients; "
@@ -53,6 +57,7 @@ def run(ck):
     finally:
         publish_mod.DEFAULT_MUTABLE_MAX_SEGMENT_SIZE = default_seg
         publish_mod.os = real_os
+        undo_time()
     ck.observe("eventual-exceptions", len(env.evq.exceptions))
     ck.require_monitor("health-oracle", "recoverable-oracle", "unforced-repair-refusal-oracle", "post-repair-oracle")
     ck.require_reach("healthy-reported", "unhealthy-reported", "verify-found-corrupt-share",
@@ -192,8 +197,9 @@ class History(object):
         if not self.build():
             return
         rounds = 5 if self.ck.tier == "quick" else 8
+        self.runaway = False
         for r in range(rounds):
-            if self.ck.out_of_time():
+            if self.ck.out_of_time() or self.runaway:
                 break
             fam = FAMILIES[self.counter[0] % len(FAMILIES)]
             self.counter[0] += 1
@@ -504,6 +510,8 @@ class History(object):
             force = self.counter[1] % 2 == 0        # alternate so both refusal and forced repair are reached early
         cr = None
         for op in plan:
+            if self.runaway:
+                break
             verify = rng.random() < .5
             if op == "check":
                 cr = self.op_check(verify, readonly=rng.random() < .3)
@@ -513,7 +521,13 @@ class History(object):
                 self.op_repair(cr, force=force)
             else:
                 self.op_car(verify)
-            g.sched.settle()
+            if not self.runaway:
+                g.sched.settle()
+
+    def note_steps(self, st, n):
+        if st in ("ok", "err"):
+            self.ck.extra["max_scheduler_steps_of_a_completed_operation"] = max(
+                n, self.ck.extra.get("max_scheduler_steps_of_a_completed_operation", 0))
 
     def fresh_node(self, readonly=False):
         p = self.p
@@ -561,7 +575,7 @@ class History(object):
                 open_case = True
         if bool(results.is_healthy()) != exp_healthy:
             if exp_healthy:
-                key = "%s-reports-unhealthy-but-single-complete-version%s" % (what, "/verify" if verify else "")
+                key = "unhealthy-reported-for-a-single-complete-version%s" % ("/verify" if verify else "")
             else:
                 inv_r, _ = self.inventory(servers, 1 if verify else 0, True)
                 rec_r = self.analyse(inv_r)[0]
@@ -574,16 +588,16 @@ class History(object):
                 elif len(inv_r[rec_r[0]]) < V[rec_r[0]]["N"]:
                     why = "fewer-than-n-distinct-shares"
                 else:
-                    why = "corrupt-shares-present-under-verify"
-                key = "%s-reports-healthy-despite-%s" % (what, why)
+                    why = "corrupt-shares"
+                key = "healthy-reported-despite-%s%s" % (why, "/verify" if verify else "")
             ck.violation(key, "is_healthy()=%r (%s); valid shares on answering servers {version index: shnums}: %s; "
                          "corrupt shares present: %r" % (results.is_healthy(), w["summary"], w["inventory"], corrupt_seen), w)
         ck.mon("recoverable-oracle")
         if open_case:
             ck.skip("recoverability-under-verify-depends-on-counting-corrupt-shares")
         elif bool(results.is_recoverable()) != exp_recoverable:
-            ck.violation("%s-reports-%s-but-file-is-%s" % (
-                what, "recoverable" if results.is_recoverable() else "unrecoverable",
+            ck.violation("%s-reported-but-file-is-%s" % (
+                "recoverable" if results.is_recoverable() else "unrecoverable",
                 "recoverable" if exp_recoverable else "unrecoverable"),
                 "is_recoverable()=%r; shares on answering servers: %s" % (results.is_recoverable(), w["inventory"]), w)
         if verify and corrupt_seen and not results.is_healthy():
@@ -594,8 +608,12 @@ class History(object):
         ck, g = self.ck, self.g
         node = self.fresh_node(readonly)
         n0 = len(g.calls)
-        st, cr = g.wait(node.check(Monitor(), verify=verify), horizon=4 * 3600.0)
+        s0 = g.sched.steps
+        st, cr = g.wait(node.check(Monitor(), verify=verify), horizon=4 * 3600.0, max_steps=MAX_STEPS)
+        self.note_steps(st, g.sched.steps - s0)
         op = "check(verify=%s,%s)" % (verify, "ro" if readonly else "rw")
+        if st not in ("ok", "err"):
+            self.runaway = True
         if st != "ok":
             ck.observe("check-" + st)
             ck.case("check", key=self.case_key + (op, st), nontrivial=self.nontrivial, sample=dict(self.desc, op=op, status=st))
@@ -663,7 +681,9 @@ class History(object):
         if len(pre["best"]) > 1:
             ck.skip("forced-repair-between-same-seqnum-competitors-either-content-accepted")
         g.sched.settle()
-        st, data = g.wait(self.fresh_node(True).download_best_version(), horizon=4 * 3600.0)
+        st, data = g.wait(self.fresh_node(True).download_best_version(), horizon=4 * 3600.0, max_steps=MAX_STEPS)
+        if st not in ("ok", "err"):
+            self.runaway = True
         if st != "ok" or data not in allowed:
             ck.violation("content-after-repair-is-not-the-best-versions",
                          "after a successful repair a fresh read %s; best pre-repair version(s): seq %s"
@@ -698,7 +718,7 @@ class History(object):
         for (idx, shnum, ms) in disk:
             if ms.fmt is None or (ms.f["seqnum"], bytes(ms.f["root_hash"])) != gk:
                 os.unlink(ms.path)
-        st, data2 = g.wait(self.fresh_node(True).download_best_version(), horizon=4 * 3600.0)
+        st, data2 = g.wait(self.fresh_node(True).download_best_version(), horizon=4 * 3600.0, max_steps=MAX_STEPS)
         if st != "ok" or data2 not in allowed:
             ck.violation("repaired-version-alone-does-not-give-best-content",
                          "with only the %d shares of the repaired version left, a read %s" % (
@@ -711,7 +731,15 @@ class History(object):
         node = self.fresh_node(False)
         pre = self.pre_repair_truth()
         n0 = len(g.calls)
-        st, rr = g.wait(node.repair(cr, force=force), horizon=4 * 3600.0)
+        s0 = g.sched.steps
+        st, rr = g.wait(node.repair(cr, force=force), horizon=4 * 3600.0, max_steps=MAX_STEPS)
+        self.note_steps(st, g.sched.steps - s0)
+        if st not in ("ok", "err"):
+            self.runaway = True
+            ck.observe("repair-never-completed")
+            ck.case("repair", key=self.case_key + ("repair", st), nontrivial=self.nontrivial,
+                    sample=dict(self.desc, op="repair", status=st))
+            return
         g.sched.settle()
         successful = bool(rr.get_successful()) if st == "ok" else False
         err = ("%s: %s" % (rr.type.__name__, str(rr.value)[:120])) if st == "err" else None
@@ -726,8 +754,16 @@ class History(object):
         node = self.fresh_node(False)
         pre = self.pre_repair_truth()
         n0 = len(g.calls)
-        st, crr = g.wait(node.check_and_repair(Monitor(), verify=verify), horizon=4 * 3600.0)
+        s0 = g.sched.steps
+        st, crr = g.wait(node.check_and_repair(Monitor(), verify=verify), horizon=4 * 3600.0, max_steps=MAX_STEPS)
+        self.note_steps(st, g.sched.steps - s0)
         t_done = env.reactor.seconds()
+        if st not in ("ok", "err"):
+            self.runaway = True
+            ck.observe("check-and-repair-never-completed")
+            ck.case("check-and-repair", key=self.case_key + ("car", st), nontrivial=self.nontrivial,
+                    sample=dict(self.desc, op="check_and_repair", status=st))
+            return
         g.sched.settle()
         op = "check_and_repair(verify=%s)" % verify
         if st == "ok":
